@@ -79,8 +79,10 @@ def run(ctx):
     ctx.audit("Babylon.Properties.C19")
     if not ctx.quick:
         ctx.leanchecker(["Babylon.Counter.Model", "Babylon.Properties.C19"])
+    ctx.log("proofs built and audited")
     drv = ctx.driver("drv_C19")
     exe, log = build_vrt_exe("c19", SRCS, repo_cpp=REPO_CPP)
+    ctx.log("driver and harness built")
     if exe is None:
         ctx.broke("correspondence", "harness/c19.cpp does not build against /repo", log[-800:])
         return
@@ -134,6 +136,7 @@ def run(ctx):
                 samples.append(r["lines"][:80])
             if len(ctx.failing) + len(ctx.broken) > 8:
                 break
+    ctx.log("histories replayed: %d ok, %d diverged, %d oracle failures" % (dist["replay_ok"], dist["replay_diverge"], dist["oracle"]))
     ctx.cov["distribution"] = dist
     ctx.cov["distinct_nontrivial"] = len(distinct)
     ctx.cov["traces_validated_against_impl"] = dist["replay_ok"]
